@@ -462,6 +462,9 @@ class Body:
         return "%s:%d" % (self.file, ln)
 
 
+ADT_DISCR = {}     # (enum path, variant name) -> discriminant, for the enums in the exported ADT table (filled by Program)
+
+
 def _freeze_const(c):
     if "int" in c:
         return ("int", int(c["int"]), c["ty"])
@@ -633,6 +636,9 @@ def fold(t):
                    "std::ops::ControlFlow": {"Continue": 0, "Break": 1}}
             if inner[2] in std and inner[3] in std[inner[2]]:
                 return ("const", ("int", std[inner[2]][inner[3]], "isize"))
+            d = ADT_DISCR.get((inner[2], inner[3]))
+            if d is not None:
+                return ("const", ("int", d, "isize"))     # a value of a known variant of one of the crate's own enums
             return ("discr_of_variant", inner[2], inner[3])
     return t
 
@@ -961,6 +967,43 @@ def _has_loop(C):
     return False
 
 
+def _expand_or_else(B, bi, t, by_path):
+    """`dest = opt.or_else(|| body)` with a local closure becomes  switch discriminant(opt) { Some => dest = opt, None => dest = body() }"""
+    if len(t["args"]) != 2 or t.get("t") is None:
+        return False
+    r_pl = t["args"][0].get("move") or t["args"][0].get("copy")
+    co = _closure_of_operand(B, bi, t["args"][1])
+    if r_pl is None or r_pl["p"] or co is None or co[0] not in by_path:
+        return False
+    C = by_path[co[0]]
+    if C["arg_count"] != 1:
+        return False
+    rty = B["locals"][r_pl["l"]].get("ty", "")
+    line = t.get("line", 0)
+    lo = len(B["locals"])
+    B["locals"] = B["locals"] + [dict(l) for l in C["locals"]] + [{"ty": "isize"}]
+    dl = len(B["locals"]) - 1
+    bo = len(B["blocks"])
+    _SUB.clear()
+    _POWNER[0] = co[0]
+    body_blocks = _copy_body(B, C, lo, bo + 2, t["dest"], t["t"], line)
+    _POWNER[0] = None
+    none_stmts = []
+    if co[1] is not None:
+        if str(C["locals"][1].get("ty", "")).startswith("&"):
+            none_stmts.append({"k": "assign", "lhs": {"l": lo + 1, "p": []}, "rv": {"k": "ref", "place": {"l": co[1], "p": []}, "mut": str(C["locals"][1]["ty"]).startswith("&mut")}, "line": line, "exp": None})
+        else:
+            none_stmts.append({"k": "assign", "lhs": {"l": lo + 1, "p": []}, "rv": {"k": "use", "op": {"move": {"l": co[1], "p": []}}}, "line": line, "exp": None})
+    none_blk = {"cleanup": False, "stmts": none_stmts, "term": {"k": "goto", "t": bo + 2, "line": line, "exp": None}}
+    some_blk = {"cleanup": False, "stmts": [{"k": "assign", "lhs": t["dest"], "rv": {"k": "use", "op": {"move": {"l": r_pl["l"], "p": []}}}, "line": line, "exp": None}],
+                "term": {"k": "goto", "t": t["t"], "line": line, "exp": None}}
+    B["blocks"] = B["blocks"] + [none_blk, some_blk] + body_blocks
+    blk = B["blocks"][bi]
+    blk["stmts"].append({"k": "assign", "lhs": {"l": dl, "p": []}, "rv": {"k": "discr", "place": {"l": r_pl["l"], "p": []}, "of": rty}, "line": line, "exp": None})
+    blk["term"] = {"k": "switch", "discr": {"move": {"l": dl, "p": []}}, "vals": ["0", "1"], "tgts": [bo, bo + 1], "otherwise": bo, "line": line, "exp": None, "inlined": co[0]}
+    return True
+
+
 def _expand_map(B, bi, t, by_path, adts, kind):
     """`dest = r.map(F)` for a Result/Option `r` and F a tuple-variant constructor or a local closure becomes
          switch discriminant(r) { Ok/Some => dest = Ok/Some(F(payload)), Err/None => dest = Err(payload)/None }."""
@@ -1073,6 +1116,11 @@ def inline_helpers(facts, is_new, max_rounds=4):
                         done.append((B["path"], "and_then"))
                         changed = True
                     continue
+                if cal == "std::option::Option::<T>::or_else" and "::tests::" not in B["path"]:
+                    if _expand_or_else(B, bi, t, by_path):
+                        done.append((B["path"], "or_else"))
+                        changed = True
+                    continue
                 if cal in ("std::result::Result::<T, E>::map", "std::option::Option::<T>::map") and "::tests::" not in B["path"]:
                     if _expand_map(B, bi, t, by_path, adts, "Result" if "Result" in cal else "Option"):
                         done.append((B["path"], "map"))
@@ -1154,6 +1202,13 @@ class Program:
             self.bodies[b.path] = b
             self.order.append(b.path)
         self.adts = {a["path"]: a for a in facts["adts"]}
+        for a in facts["adts"]:
+            if a.get("kind") == "enum":
+                for v in a["variants"]:
+                    try:
+                        ADT_DISCR[(a["path"], v["name"])] = int(v["discr"])
+                    except (TypeError, ValueError):
+                        pass
         self.impls = facts["impls"]
         self.traits = {t["path"]: t for t in facts["traits"]}
         self._cg = None
